@@ -488,6 +488,15 @@ class Check:
                     base = a.split(".")[-1]
                     if a not in self.allowed_axioms and base not in self.allowed_axioms:
                         fails.append(Failure("proof", "theorem %s depends on undeclared axiom %s" % (th, a)))
+        if ok and self.tier == "thorough":
+            # independent re-check of the compiled property file and everything it depends on
+            mod = "PV." + self.prop_file[len("theories/"):-2].replace("/", ".")
+            t1 = time.time()
+            rc, o, e = run(["coqchk", "-silent", "-o", "-Q", "theories", "PV", mod], cwd=COQ, timeout=3000)
+            self.cov["coqchk"] = {"rc": rc, "wall_s": round(time.time() - t1, 1),
+                                  "summary": " ".join(o[o.find("CONTEXT SUMMARY"):].split())[:1500]}
+            if rc != 0:
+                fails.append(Failure("proof", "coqchk rejects " + mod, (o + e)[-2000:]))
         bad = hygiene(cone)
         for b in bad:
             fails.append(Failure("proof", "hygiene gate: " + b))
